@@ -37,13 +37,6 @@ def _flattens_edge_major(fn: ast.AST, c: ast.Call) -> bool:
     if c.func.attr == "flatten":
         return [astq.const_value(a) for a in c.args] == [0, 1] and not c.keywords
     at = enclosing_stmt(c)
-    args = list(c.args)
-    if len(args) == 1:
-        one = astq.expand_at(fn, args[0], at, keep=[recv])
-        args = list(one.elts) if isinstance(one, (ast.Tuple, ast.List)) else args
-    if len(args) != 3 or c.keywords:
-        return False
-    ex = [astq.expand_at(fn, a, at, keep=[recv, "xv", "yv"]) for a in args]
 
     def side(e, vec, axes):
         t = norm(e)
@@ -52,6 +45,25 @@ def _flattens_edge_major(fn: ast.AST, c: ast.Call) -> bool:
     def edges(e):
         t = norm(e)
         return t in {f"{recv}.shape[0]", f"{recv}.size(0)", f"{recv}.shape[-4]"} or (t.startswith("len(") and t.endswith("edge_inds)")) or t.endswith("edge_inds.shape[0]")
+
+    args = list(c.args)
+    if len(args) == 1:
+        one = astq.expand_at(fn, args[0], at, keep=[recv])
+        if isinstance(one, ast.IfExp):
+            # reshape(<flat shape> if flatten_channels else <the shape the fields already have>): the flat arm is the reshape
+            neg = isinstance(one.test, ast.UnaryOp) and isinstance(one.test.op, ast.Not)
+            core = one.test.operand if neg else one.test
+            if norm(core).split(".")[-1] != "flatten_channels":
+                return False
+            flat_arm, keep_arm = (one.orelse, one.body) if neg else (one.body, one.orelse)
+            ka = [astq.expand_at(fn, a, at, keep=[recv, "xv", "yv"]) for a in keep_arm.elts] if isinstance(keep_arm, (ast.Tuple, ast.List)) else []
+            if not (len(ka) == 4 and edges(ka[0]) and astq.const_value(ka[1]) == 2 and side(ka[2], "yv", (2, -2)) and side(ka[3], "xv", (3, -1))):
+                return False
+            one = flat_arm
+        args = list(one.elts) if isinstance(one, (ast.Tuple, ast.List)) else args
+    if len(args) != 3 or c.keywords:
+        return False
+    ex = [astq.expand_at(fn, a, at, keep=[recv, "xv", "yv"]) for a in args]
 
     d0 = ex[0]
     ok0 = astq.const_value(d0) == -1 or (isinstance(d0, ast.BinOp) and isinstance(d0.op, ast.Mult) and
